@@ -2,6 +2,7 @@
 import KamalProxy.Driver.Proto
 import KamalProxy.Model.Request
 import KamalProxy.Std.Html
+import KamalProxy.Model.Rewrite
 namespace KamalProxy.Driver.Control
 open KamalProxy Proto
 
@@ -64,13 +65,20 @@ def showSnap (sn : SvcSnap) : String :=
   s!"rollout={match sn.rollout with | none => "null" | some l => encL l} " ++
   s!"pause={pauseName sn.pause.1}/{encB sn.pause.2.1}/{sn.pause.2.2} {showSplit sn.split}]"
 
-/-- request-URI seen by the target for a request whose path needs no escaping -/
-def seenURI (r : Req) (strip : Option Bytes) : Bytes :=
+/-- request-URI seen by the target: the URL model of C13 (`Rewrite.forwardedURI`: prefix stripped from the escaped and
+    the decoded path alike, query kept) applied to the request target; `seenPlain` is the same for targets that
+    need no escaping and is the fallback for a target the URL model does not parse -/
+def seenPlain (r : Req) (strip : Option Bytes) : Bytes :=
   match strip with
   | none => r.uri
   | some p =>
     let path' := r.path.drop p.length
     (if path'.isEmpty then [cSlash] else path') ++ r.uri.drop r.path.length
+
+def seenURI (r : Req) (strip : Option Bytes) : Bytes :=
+  match Url.parseRequestURI r.uri with
+  | some u => Rewrite.forwardedURI u strip
+  | none => seenPlain r strip
 
 /-- key paths of one persisted service object (struct tags of marshalledService, ServiceOptions,
     TargetOptions, HealthCheckConfig, PauseController; tied to the source by T1 and compared
